@@ -1,6 +1,7 @@
 mod ast;
 mod engine;
 mod gen;
+mod model;
 mod props;
 mod real;
 mod val;
